@@ -370,14 +370,28 @@ impl<'de, R: Reader<'de>> Deserializer<R> {
             let json = self.parser.read.as_u8_slice();
 
             // get n to check trailing characters in later
-            let n = if cfg.utf8_lossy && self.parser.read.next_invalid_utf8() != usize::MAX {
+            let (n, len) = if cfg.utf8_lossy && self.parser.read.next_invalid_utf8() != usize::MAX {
                 // repr the invalid utf8, not need to care about the invalid UTF8 char in non-string
                 // parts, it will cause errors when parsing.
-                val.parse_with_padding(String::from_utf8_lossy(json).as_bytes(), cfg)?
+                let repaired = String::from_utf8_lossy(json);
+                (
+                    val.parse_with_padding(repaired.as_bytes(), cfg)?,
+                    repaired.len(),
+                )
             } else {
-                val.parse_with_padding(json, cfg)?
+                (val.parse_with_padding(json, cfg)?, json.len())
             };
             self.parser.read.eat(n);
+            // The in-place parser runs on a private copy terminated by the `x"x` padding and
+            // does not validate UTF-8.  `from_slice`/`from_str` catch both afterwards (trailing
+            // check and deferred UTF-8 error), but `Deserializer::deserialize` and streams do
+            // not, so check here: the value must end inside the input and be valid UTF-8.
+            if n > len {
+                return Err(self.parser.error(ErrorCode::EofWhileParsing));
+            }
+            if !cfg.utf8_lossy && self.parser.read.next_invalid_utf8() < n {
+                return Err(self.parser.read.check_utf8_final().unwrap_err());
+            }
         } else {
             let shared = unsafe {
                 if self.shared.is_none() {
